@@ -70,3 +70,28 @@ def unit_script(which, index, shapes):
             a.flat[index] = 1.0
         out.append(a)
     return out
+
+
+def discover_shapes(fn, *args, **kw):
+    """The shapes of the standard-normal requests a call makes (observed with an all-zero script)."""
+    g = ScriptedGenerator([])
+    fn(*args, seed=g, **kw)
+    return [tuple(l["size"]) for l in g.log]
+
+
+def unit_stream_script(position, shapes):
+    """Script with a single 1 at flat `position` of the concatenation of all requested arrays."""
+    out = []
+    off = 0
+    for shp in shapes:
+        n = int(np.prod(shp))
+        a = np.zeros(shp)
+        if off <= position < off + n:
+            a.flat[position - off] = 1.0
+        out.append(a)
+        off += n
+    return out
+
+
+class ProbeNotApplicable(Exception):
+    """The object does not draw its innovation the way the probe can script (e.g. block-wise): nothing can be observed."""
